@@ -268,7 +268,7 @@ fn parts(ctx: &Ctx) -> Vec<PartSpec> {
                 if ctx.quick() && pi == 1 {
                     continue;
                 }
-                v.push(PartSpec::new(&format!("e3-lp{}-prefix{}-global{}", lp as u8, pi, gl as u8), json!({"lp": lp, "prefix": pi, "global": gl, "depth": depth})).budget(if ctx.quick() { 50.0 } else { 2400.0 }));
+                v.push(PartSpec::new(&format!("e3-lp{}-prefix{}-global{}", lp as u8, pi, gl as u8), json!({"lp": lp, "prefix": pi, "global": gl, "depth": depth})).budget(if ctx.quick() { 150.0 } else { 2400.0 }));
             }
         }
     }
